@@ -1,42 +1,1259 @@
+// Command c08: searchers and correspondence for C08 (clones of a compiled script run concurrently
+// without interference).
+//
+// Streams (each runs in-process, and again inside a `-race` build of this command that the command
+// builds and re-executes itself; the child attributes every race report to the trial that produced it)
+//
+//	clones    K ∈ {2,4,8} clones of one compiled program run on K goroutines (random GOMAXPROCS, Gosched
+//	          injected through tengo.VerifProbe, Run/RunContext mixed) — per-clone error text + GetAll must
+//	          equal the clone's solo result; the original must be unchanged. One repetition runs the clones
+//	          one after another in random order (pure isolation, no timing involved).
+//	api       concurrent Get/GetAll/IsDefined/Size/Clone/Set/Run/RunContext on ONE Compiled: no panic, clones
+//	          taken meanwhile behave like solo clones, the final state equals the solo state; under -race:
+//	          no report.
+//	shape     (model) which nodes of Clone()'s globals are new objects vs shared with the original, compared
+//	          with `copy` of Tengo/Model/Clone.lean (driver line `cloneshape`).
+//	probes    dedicated inputs of the known findings O14 O15 O16 C08-K1 (KnownHits while they still fail).
+//
+// Oracles never use timing: only final states are compared.
 package main
 
 import (
+	"context"
+	"encoding/json"
+	"flag"
 	"fmt"
+	"os"
+	"os/exec"
+	"path/filepath"
+	"reflect"
+	"runtime"
+	"sort"
+	"strconv"
+	"strings"
 	"sync"
+	"time"
 
 	"github.com/d5/tengo/v2"
+	"github.com/d5/tengo/v2/stdlib"
+	"verifharness/lib"
 )
 
-func get(c *tengo.Compiled, n string) interface{} { return c.Get(n).Value() }
+// Scenario is one program with its host-side configuration (JSON: it is the replay input).
+type Scenario struct {
+	Name     string                 `json:"name"`
+	Src      string                 `json:"src"`
+	Vars     map[string]interface{} `json:"vars,omitempty"`     // Script.Add before Compile
+	IDVar    string                 `json:"id_var,omitempty"`   // clone i gets Set(IDVar, 100+7i)
+	SrcMods  map[string]string      `json:"src_mods,omitempty"` // source modules
+	Stdlib   []string               `json:"stdlib,omitempty"`
+	Builtin  bool                   `json:"builtin,omitempty"`   // builtin module "mod" {id: 7}; clone i replaces it by {id: 1000+i}
+	AfterRun bool                   `json:"after_run,omitempty"` // the original is run once before it is cloned
+	Runs     int                    `json:"runs,omitempty"`      // runs per clone (default 1)
+}
+
+// Trial: one concurrent execution of a scenario.
+type Trial struct {
+	Scenario Scenario `json:"scenario"`
+	K        int      `json:"k"`
+	Procs    int      `json:"gomaxprocs"` // 0: clones run one after another in Order
+	YieldMod int      `json:"yield_mod"`
+	YieldPh  int      `json:"yield_phase"`
+	Ctx      []bool   `json:"run_context"` // clone i uses RunContext
+	Order    []int    `json:"order,omitempty"`
+	Mode     string   `json:"mode"` // "clones" | "api"
+	Seed     uint64   `json:"seed"`
+	Race     bool     `json:"race_build"`
+}
+
+var (
+	res     *lib.Result
+	rlog    *raceLog
+	flags   *lib.Flags
+	isChild bool
+	noRace  bool
+
+	// read by the probe on every VM goroutine; written only between trials
+	yieldMod, yieldPh int
+)
+
+func init() {
+	tengo.VerifProbe = func(v *tengo.VM, fn *tengo.CompiledFunction, ip, sp, bp, fi int, allocs int64) {
+		if yieldMod > 0 && (ip*31+sp*7+fi)%yieldMod == yieldPh {
+			runtime.Gosched()
+		}
+	}
+}
+
+// ---- building and running ----
+
+func normVal(v interface{}) interface{} {
+	switch x := v.(type) {
+	case float64:
+		if x == float64(int64(x)) {
+			return int64(x)
+		}
+	case []interface{}:
+		out := make([]interface{}, len(x))
+		for i := range x {
+			out[i] = normVal(x[i])
+		}
+		return out
+	case map[string]interface{}:
+		out := map[string]interface{}{}
+		for k, e := range x {
+			out[k] = normVal(e)
+		}
+		return out
+	case int:
+		return int64(x)
+	}
+	return v
+}
+
+func prepare(sc Scenario) (*tengo.Compiled, error) {
+	s := tengo.NewScript([]byte(sc.Src))
+	names := make([]string, 0, len(sc.Vars))
+	for n := range sc.Vars {
+		names = append(names, n)
+	}
+	sort.Strings(names)
+	for _, n := range names {
+		if err := s.Add(n, normVal(sc.Vars[n])); err != nil {
+			return nil, err
+		}
+	}
+	if sc.IDVar != "" {
+		_ = s.Add(sc.IDVar, int64(0))
+	}
+	mm := stdlib.GetModuleMap(sc.Stdlib...)
+	for n, src := range sc.SrcMods {
+		mm.AddSourceModule(n, []byte(src))
+	}
+	if sc.Builtin {
+		mm.AddBuiltinModule("mod", map[string]tengo.Object{"id": &tengo.Int{Value: 7}, "tag": &tengo.Int{Value: 1}})
+	}
+	s.SetImports(mm)
+	return s.Compile()
+}
+
+func idOf(i int) int64 { return int64(100 + 7*i) }
+
+func configure(c *tengo.Compiled, sc Scenario, i int) {
+	if sc.IDVar != "" {
+		_ = c.Set(sc.IDVar, idOf(i))
+	}
+	if sc.Builtin {
+		c.ReplaceBuiltinModule("mod", map[string]tengo.Object{"id": &tengo.Int{Value: int64(1000 + i)}, "tag": &tengo.Int{Value: 1}})
+	}
+}
+
+func runOne(c *tengo.Compiled, useCtx bool) (out string) {
+	defer func() {
+		if p := recover(); p != nil {
+			out = "panic: " + fmt.Sprint(p)
+		}
+	}()
+	var err error
+	if useCtx {
+		ctx, cancel := context.WithTimeout(context.Background(), 60*time.Second)
+		defer cancel()
+		err = c.RunContext(ctx)
+	} else {
+		err = c.Run()
+	}
+	if err != nil {
+		return "err: " + err.Error()
+	}
+	return "ok"
+}
+
+func snapshot(c *tengo.Compiled) string {
+	vs := c.GetAll()
+	parts := make([]string, 0, len(vs))
+	for _, v := range vs {
+		parts = append(parts, v.Name()+"="+lib.Canon(v.Object()))
+	}
+	sort.Strings(parts)
+	return strings.Join(parts, " ")
+}
+
+func runs(sc Scenario) int {
+	if sc.Runs > 1 {
+		return sc.Runs
+	}
+	return 1
+}
+
+func runClone(c *tengo.Compiled, sc Scenario, useCtx bool) string {
+	r := ""
+	for j := 0; j < runs(sc); j++ {
+		r += runOne(c, useCtx) + " ; "
+	}
+	return r
+}
+
+// rune caches of String objects reachable from the constants of c (read through reflection only)
+func runeCacheFilled(c *tengo.Compiled) bool {
+	bc := reflect.ValueOf(c).Elem().FieldByName("bytecode")
+	if !bc.IsValid() || bc.IsNil() {
+		return false
+	}
+	ks := bc.Elem().FieldByName("Constants")
+	if !ks.IsValid() {
+		return false
+	}
+	for i := 0; i < ks.Len(); i++ {
+		if objCacheFilled(ks.Index(i), 0) {
+			return true
+		}
+	}
+	return false
+}
+
+func objCacheFilled(v reflect.Value, depth int) bool {
+	for v.IsValid() && (v.Kind() == reflect.Interface || v.Kind() == reflect.Ptr) {
+		if v.IsNil() {
+			return false
+		}
+		v = v.Elem()
+	}
+	if !v.IsValid() || v.Kind() != reflect.Struct || depth > 6 {
+		return false
+	}
+	switch v.Type().Name() {
+	case "String":
+		f := v.FieldByName("runeStr")
+		return f.IsValid() && !f.IsNil()
+	case "Array", "ImmutableArray":
+		s := v.FieldByName("Value")
+		for i := 0; i < s.Len(); i++ {
+			if objCacheFilled(s.Index(i), depth+1) {
+				return true
+			}
+		}
+	case "Map", "ImmutableMap":
+		it := v.FieldByName("Value").MapRange()
+		for it.Next() {
+			if objCacheFilled(it.Value(), depth+1) {
+				return true
+			}
+		}
+	}
+	return false
+}
+
+// solo: clone i of a FRESH compile, configured and run alone. Returns per-clone results, the
+// original's snapshot at clone time, and whether a solo run filled a rune cache of a constant.
+type soloRes struct {
+	clone    []string
+	orig     string
+	touches  bool
+	unstable bool
+	err      error
+}
+
+func solo(sc Scenario, k int) soloRes {
+	var r soloRes
+	for i := 0; i < k; i++ {
+		if i > 0 && sc.IDVar == "" && !sc.Builtin {
+			r.clone = append(r.clone, r.clone[0]) // all clones are configured alike: same program, same inputs
+			continue
+		}
+		var first string
+		for rep := 0; rep < 2; rep++ { // twice: a program whose result is not a function of its inputs is skipped
+			if rep == 1 && raceEnabled && i > 0 {
+				break // the -race child re-runs programs the parent already screened; one stability check suffices
+			}
+			base, err := prepare(sc)
+			if err != nil {
+				r.err = err
+				return r
+			}
+			if sc.AfterRun {
+				runOne(base, false)
+			}
+			if i == 0 && rep == 0 {
+				r.orig = snapshot(base)
+			}
+			cl := base.Clone()
+			configure(cl, sc, i)
+			out := runClone(cl, sc, rep == 1) + "| " + snapshot(cl)
+			if rep == 0 {
+				first = out
+			} else if out != first {
+				r.unstable = true
+			}
+			if runeCacheFilled(base) {
+				r.touches = true
+			}
+		}
+		r.clone = append(r.clone, first)
+	}
+	return r
+}
+
+func setSched(t Trial) int {
+	old := runtime.GOMAXPROCS(0)
+	if t.Procs > 0 {
+		runtime.GOMAXPROCS(t.Procs)
+	}
+	yieldMod, yieldPh = t.YieldMod, t.YieldPh
+	return old
+}
+
+func resetSched(old int) {
+	runtime.GOMAXPROCS(old)
+	yieldMod, yieldPh = 0, 0
+}
+
+// handleRaces attributes the race reports written since the last call to trial t.
+func handleRaces(t Trial, stream string) {
+	for _, r := range rlog.next() {
+		res.Dist("race-report")
+		if id := r.classify(); id != "" {
+			res.Dist("race-report-known-" + id)
+			addKnown(id)
+			continue
+		}
+		if !r.Tengo {
+			res.Disagree(lib.Disagreement{Stream: stream, Input: t, Model: "no data race inside the harness", Impl: r.Text})
+			continue
+		}
+		violate(lib.Violation{Signature: r.signature(), Stream: stream + "-race", Input: t, Observed: r.Text,
+			Expected: "no data race report with tengo frames", Oracle: "Go race detector (-race build of this harness) during this trial"})
+	}
+}
+
+// violate records a violation and flushes the result file at once: a later Go-fatal error of the code
+// under test (concurrent map writes cannot be recovered) must not lose it.
+func violate(v lib.Violation) {
+	res.Violate(v)
+	nViol++
+	if flags.Out != "" {
+		res.Write(flags.Out)
+	}
+}
+
+var nViol int
+
+var knownSeen = map[string]bool{}
+
+func addKnown(id string) {
+	if !knownSeen[id] {
+		knownSeen[id] = true
+		res.KnownHits = append(res.KnownHits, id)
+	}
+}
+
+// cloneTrial runs one trial of stream `clones`.
+func cloneTrial(t Trial, so soloRes) {
+	sc := t.Scenario
+	orig, err := prepare(sc)
+	if err != nil {
+		return
+	}
+	if sc.AfterRun {
+		runOne(orig, false)
+	}
+	if so.touches { // stay away from O15: fill the rune caches of the constants before anything runs concurrently
+		w := orig.Clone()
+		configure(w, sc, 0)
+		runClone(w, sc, false)
+	}
+	before := snapshot(orig)
+	cl := make([]*tengo.Compiled, t.K)
+	for i := range cl {
+		cl[i] = orig.Clone()
+		configure(cl[i], sc, i)
+	}
+	outs := make([]string, t.K)
+	old := setSched(t)
+	if t.Procs == 0 {
+		for _, i := range t.Order {
+			outs[i] = runClone(cl[i], sc, t.Ctx[i])
+		}
+	} else {
+		var wg sync.WaitGroup
+		start := make(chan struct{})
+		for i := range cl {
+			wg.Add(1)
+			go func(i int) {
+				defer wg.Done()
+				<-start
+				outs[i] = runClone(cl[i], sc, t.Ctx[i])
+			}(i)
+		}
+		close(start)
+		wg.Wait()
+	}
+	resetSched(old)
+	handleRaces(t, "clones")
+	if before != so.orig {
+		violate(lib.Violation{Signature: "original-differs-from-solo-original", Stream: "clones", Input: t,
+			Observed: before, Expected: so.orig, Oracle: "state of the original at clone time is a function of program and inputs"})
+		return
+	}
+	if after := snapshot(orig); after != before {
+		violate(lib.Violation{Signature: "clone-run-changes-original", Stream: "clones", Input: t,
+			Observed: after, Expected: before, Oracle: "GetAll of the original before vs after its clones were configured and run"})
+	}
+	for i := range cl {
+		got := outs[i] + "| " + snapshot(cl[i])
+		if got != so.clone[i] {
+			violate(lib.Violation{Signature: "clone-differs-from-solo", Stream: "clones", Input: t,
+				Observed: fmt.Sprintf("clone %d: %s", i, got), Expected: fmt.Sprintf("clone %d alone: %s", i, so.clone[i]),
+				Oracle: "error text and GetAll of clone i after the trial vs the same clone of a fresh compile run alone"})
+			return
+		}
+	}
+}
+
+// apiTrial: concurrent API calls on ONE Compiled.
+func apiTrial(t Trial, r *lib.RNG) {
+	sc := t.Scenario
+	c, err := prepare(sc)
+	if err != nil {
+		return
+	}
+	names := []string{}
+	for _, v := range c.GetAll() {
+		names = append(names, v.Name())
+	}
+	sort.Strings(names)
+	if len(names) == 0 {
+		return
+	}
+	// what a clone taken at any time and run with id k must yield
+	var cacheMu sync.Mutex
+	cache := map[int64]string{}
+	soloClone := func(k int64) (out string) {
+		cacheMu.Lock()
+		defer cacheMu.Unlock()
+		if s, ok := cache[k]; ok {
+			return s
+		}
+		defer func() { cache[k] = out }()
+		b, _ := prepare(sc)
+		x := b.Clone()
+		if sc.IDVar != "" {
+			_ = x.Set(sc.IDVar, k)
+		}
+		return runOne(x, false) + " | " + snapshot(x)
+	}
+	warm := func() { // O15 avoidance as in cloneTrial
+		b, _ := prepare(sc)
+		runOne(b, false)
+		if runeCacheFilled(b) {
+			runOne(c, false)
+		}
+	}
+	warm()
+	type op struct {
+		kind int
+		name string
+		val  int64
+	}
+	g := t.K
+	plans := make([][]op, g)
+	for i := range plans {
+		n, vals := 6+r.Intn(10), 50
+		if raceEnabled {
+			n, vals = 4+r.Intn(5), 3
+		}
+		for j := 0; j < n; j++ {
+			plans[i] = append(plans[i], op{kind: r.Weighted([]int{4, 3, 3, 2, 3, 3, 2, 1}), name: lib.Pick(r, names), val: int64(r.Intn(vals))})
+		}
+	}
+	bad := make([]string, g)
+	old := setSched(t)
+	var wg sync.WaitGroup
+	start := make(chan struct{})
+	for i := 0; i < g; i++ {
+		wg.Add(1)
+		go func(i int) {
+			defer wg.Done()
+			defer func() {
+				if p := recover(); p != nil {
+					bad[i] = "panic: " + fmt.Sprint(p)
+				}
+			}()
+			<-start
+			for _, o := range plans[i] {
+				switch o.kind {
+				case 0:
+					if v := c.Get(o.name); v == nil || v.Name() != o.name {
+						bad[i] = "Get(" + o.name + ") returned a variable with another name"
+					}
+				case 1:
+					if vs := c.GetAll(); len(vs) != len(names) {
+						bad[i] = fmt.Sprintf("GetAll returned %d variables, want %d", len(vs), len(names))
+					}
+				case 2:
+					c.IsDefined(o.name)
+				case 3:
+					if c.Size() <= 0 {
+						bad[i] = "Size() <= 0"
+					}
+				case 4:
+					if sc.IDVar != "" {
+						if err := c.Set(sc.IDVar, o.val); err != nil {
+							bad[i] = "Set: " + err.Error()
+						}
+					}
+				case 5:
+					x := c.Clone()
+					if sc.IDVar != "" {
+						_ = x.Set(sc.IDVar, o.val)
+					}
+					got := runOne(x, false) + " | " + snapshot(x)
+					// a failing run leaves globals of the state at clone time: only successful runs are a function of id
+					if want := soloClone(o.val); strings.HasPrefix(want, "ok") && got != want {
+						bad[i] = "clone taken during concurrent use: " + got + " ; alone: " + want
+					}
+				case 6:
+					runOne(c, false)
+				case 7:
+					runOne(c, true)
+				}
+			}
+		}(i)
+	}
+	close(start)
+	wg.Wait()
+	resetSched(old)
+	handleRaces(t, "api")
+	for i, b := range bad {
+		if b != "" {
+			violate(lib.Violation{Signature: "api-concurrent-misbehaves", Stream: "api", Input: t,
+				Observed: fmt.Sprintf("goroutine %d: %s", i, b), Expected: "every call behaves as if calls were serialised",
+				Oracle: "concurrent Get/GetAll/IsDefined/Size/Clone/Set/Run/RunContext on one Compiled"})
+			return
+		}
+	}
+	// final state: a function of the last Set and the program
+	if sc.IDVar != "" {
+		_ = c.Set(sc.IDVar, int64(77))
+	}
+	got := runOne(c, false) + " | " + snapshot(c)
+	b, _ := prepare(sc)
+	if sc.IDVar != "" {
+		_ = b.Set(sc.IDVar, int64(77))
+	}
+	want := runOne(b, false) + " | " + snapshot(b)
+	if (sc.IDVar == "" || strings.HasPrefix(want, "ok")) && got != want {
+		violate(lib.Violation{Signature: "api-final-state-differs", Stream: "api", Input: t, Observed: got, Expected: want,
+			Oracle: "after all goroutines joined: Set(id,77); Run; GetAll vs a fresh compile"})
+	}
+}
+
+// ---- scenarios ----
+
+var libModule = "export {\n  sum: func(a) { s := 0; for x in a { s += x }; return s },\n  upto: func(n) { r := []; for i := 0; i < n; i++ { r = append(r, i) }; return r },\n  box: func(v) { c := v; return {get: func() { return c }, add: func(d) { c += d; return c }} }\n}\n"
+
+func targeted() []Scenario {
+	nested := map[string]interface{}{
+		"arr": []interface{}{0, 0, []interface{}{0, 0}, map[string]interface{}{"z": 0}},
+		"m":   map[string]interface{}{"a": 0, "n": map[string]interface{}{"x": 0}, "l": []interface{}{0, 1}},
+	}
+	return []Scenario{
+		{Name: "mutate-inputs", IDVar: "id", Vars: nested,
+			Src: "arr[0] = id\narr[2][1] = id * 2\narr[3].z = id + 5\nm.a = id\nm.n.x = id + 1\nm.l[0] = id - 1\nacc := 0\nfor i := 0; i < 60; i++ { arr[1] = arr[0] + i; acc += arr[1] + m.a + arr[2][1] + m.n.x + m.l[0] + arr[3].z }\nout := [arr, m, acc]\n"},
+		{Name: "mutate-inputs-after-run", IDVar: "id", Vars: nested, AfterRun: true, Runs: 2,
+			Src: "arr[0] += id\narr[2][0] += 1\nm.n.x += id\nm.l = append(m.l, id)\nout := [arr, m]\n"},
+		{Name: "closures-in-globals", IDVar: "id",
+			Src: "mk := func(start) { c := start; return {inc: func(d) { c += d; return c }, get: func() { return c }} }\nk := mk(id)\nfor i := 0; i < 40; i++ { k.inc(i) }\nout := k.get()\nf := func(x) { return x + id }\ng := f(1)\n"},
+		{Name: "closures-after-run", IDVar: "id", AfterRun: true,
+			Src: "n := 0\ninc := func() { n += id; return n }\nfor i := 0; i < 25; i++ { inc() }\nout := n\n"},
+		{Name: "modules", IDVar: "id", Stdlib: []string{"math", "text", "times", "json"}, SrcMods: map[string]string{"lib": libModule},
+			Src: "lib := import(\"lib\")\nmath := import(\"math\")\ntext := import(\"text\")\njson := import(\"json\")\nb := lib.box(id)\nfor i in lib.upto(id % 7 + 3) { b.add(i) }\nout := lib.sum(lib.upto(id % 9 + 2)) + math.abs(-id) + b.get()\ns := text.repeat(\"ab\", id % 5 + 1) + string(id)\nt := text.to_upper(s)\nj := string(json.encode({a: [id, s]}))\n"},
+		{Name: "builtin-module-replaced", Builtin: true,
+			Src: "mod := import(\"mod\")\nout := mod.id\nacc := 0\nfor i := 0; i < 40; i++ { acc += mod.id + mod.tag }\n"},
+		{Name: "runtime-error", IDVar: "id",
+			Src: "f := func(a) { return a + \"s\" }\nn := 0\nfor i := 0; i < id % 5 + 2; i++ { n += i }\nr := (id % 2 == 0) ? f(n) : n\nlate := [1, 2, 3][id % 3] + undefined\n"},
+		{Name: "runtime-error-in-loop", IDVar: "id", Vars: map[string]interface{}{"arr": []interface{}{1, 2, 3}},
+			Src: "acc := 0\nfor i := 0; i < 100; i++ {\n  arr[i % 3] += id\n  if i == id % 50 + 10 { acc = acc + [] }\n  acc += arr[i % 3]\n}\n"},
+		{Name: "built-strings", IDVar: "id",
+			Src: "s := \"ab\" + string(id) + \"é\"\nc := s[1]\nn := 0\nfor ch in s { n += 1 }\nu := s[1:3]\nb := bytes(s)\nb2 := b[0]\n"},
+		{Name: "immutable-inputs", IDVar: "id", Vars: map[string]interface{}{"cfg": map[string]interface{}{"k": []interface{}{1, 2}}},
+			Src: "im := immutable(cfg)\ncfg.k[0] = id\ncp := copy(cfg)\ncp.k[1] = id + 1\nout := [im, cfg, cp]\ne := error(cfg)\n"},
+	}
+}
+
+func genScenario(r *lib.RNG, i int) Scenario {
+	p := lib.DefaultProfile()
+	p.MaxStmts = 8 + r.Intn(10)
+	p.Chaos = 10
+	g := lib.NewGen(r, p)
+	sc := Scenario{Name: "gen-" + strconv.Itoa(i), Src: g.Program()}
+	sc.AfterRun = r.Chance(1, 4)
+	if r.Chance(1, 5) {
+		sc.Runs = 2
+	}
+	for k, v := range g.Feat {
+		res.Distribution["feat:"+k] += v
+	}
+	return sc
+}
+
+func mkTrial(sc Scenario, k int, r *lib.RNG, mode string, sequential bool) Trial {
+	t := Trial{Scenario: sc, K: k, Mode: mode, Race: raceEnabled}
+	t.Procs = lib.Pick(r, []int{1, 2, 2, 3, 4, 8, 16})
+	t.YieldMod = lib.Pick(r, []int{0, 2, 3, 5, 11, 37})
+	if t.YieldMod > 0 {
+		t.YieldPh = r.Intn(t.YieldMod)
+	}
+	for i := 0; i < k; i++ {
+		t.Ctx = append(t.Ctx, r.Chance(1, 3))
+	}
+	if sequential {
+		t.Procs = 0
+		for i := 0; i < k; i++ {
+			t.Order = append(t.Order, i)
+		}
+		for i := k - 1; i > 0; i-- {
+			j := r.Intn(i + 1)
+			t.Order[i], t.Order[j] = t.Order[j], t.Order[i]
+		}
+	}
+	return t
+}
+
+var tSolo, tClone, tApi time.Duration
+
+func runScenario(sc Scenario, r *lib.RNG, reps int, ks []int) {
+	for _, k := range ks {
+		t0 := time.Now()
+		so := solo(sc, k)
+		tSolo += time.Since(t0)
+		if so.err != nil {
+			res.Count("clones", sc.Src, false)
+			res.Dist("compile-error")
+			return
+		}
+		if so.unstable {
+			res.Skipped++
+			res.Dist("skipped-result-not-a-function-of-inputs")
+			return
+		}
+		if so.touches {
+			res.Dist("rune-cache-of-a-constant-prewarmed")
+		}
+		for rep := 0; rep < reps; rep++ {
+			t := mkTrial(sc, k, r, "clones", rep == 0 && !raceEnabled)
+			t.Seed = flags.Seed
+			t1 := time.Now()
+			before := nViol
+			cloneTrial(t, so)
+			tClone += time.Since(t1)
+			if nViol > before {
+				return // state is shared in this scenario: further concurrent trials could kill the process
+			}
+			res.Count("clones", sc.Src+"\x00"+strconv.Itoa(k), sc.IDVar != "" || strings.Contains(so.clone[0], "="))
+		}
+		if strings.Contains(so.clone[0], "err: ") {
+			res.Dist("clone-run-fails")
+		}
+	}
+	if len(sc.Vars) > 0 {
+		return // api stream: programs whose state is a function of the last Set only (no accumulating inputs)
+	}
+	for rep := 0; rep < (reps+1)/2; rep++ {
+		t := mkTrial(sc, lib.Pick(r, []int{2, 4, 8}), r, "api", false)
+		t.Seed = flags.Seed
+		t2 := time.Now()
+		apiTrial(t, r)
+		tApi += time.Since(t2)
+		res.Count("api", sc.Src+"\x00"+strconv.Itoa(rep), true)
+	}
+}
+
+// ---- probes of the known findings ----
+
+func probeO14() (bool, string) {
+	sc := Scenario{Src: "if is_undefined(f) { f = func() { c := 0; return func() { c += 1; return c } }() }\nout := f()\n", Vars: map[string]interface{}{"f": nil}}
+	c, err := prepare(sc)
+	if err != nil {
+		return false, ""
+	}
+	runOne(c, false) // out = 1, f holds a closure over the cell c
+	cl := c.Clone()
+	runOne(cl, false) // the clone calls ITS copy of f
+	runOne(c, false)  // alone this yields 2
+	got := lib.Canon(c.Get("out").Object())
+	return got != "(i 2)", "original: out = " + got + " after Run, Clone, clone.Run, Run (alone: (i 2))"
+}
+
+func probeO15() (bool, string) {
+	sc := Scenario{Src: "s := \"héllo wörld\"\nc := s[1]\n"}
+	c, err := prepare(sc)
+	if err != nil {
+		return false, ""
+	}
+	a, b := c.Clone(), c.Clone()
+	runOne(a, false)
+	sa := a.Get("s").Object()
+	runOne(b, false)
+	sb := b.Get("s").Object()
+	if sa == sb && objCacheFilled(reflect.ValueOf(sa), 0) {
+		return true, "clones a and b hold the SAME *String (the constant) in global s, and its runeStr cache was written by a run (no lock is common to two clones)"
+	}
+	return false, ""
+}
+
+func probeO16() (bool, string) {
+	mm := tengo.NewModuleMap()
+	mm.AddSourceModule("m", []byte("export {f: func(a) { return a + \"s\" }}\n"))
+	c, err := lib.CompileSource([]byte("m := import(\"m\")\nx := m.f(1)\n"), lib.CompileOpts{Modules: mm})
+	if err != nil || c.BC == nil {
+		return false, ""
+	}
+	before := c.BC.FileSet.LastFile
+	vm := tengo.NewVM(c.BC, make([]tengo.Object, tengo.GlobalsSize), -1) // what Compiled.Run does with the shared bytecode
+	_ = vm.Run()
+	if after := c.BC.FileSet.LastFile; after != before {
+		return true, fmt.Sprintf("a failing run changed SourceFileSet.LastFile of the shared bytecode (%s -> %s)", before.Name, after.Name)
+	}
+	return false, ""
+}
+
+func probeK1() (bool, string) {
+	sc := Scenario{Builtin: true, Src: "mod := import(\"mod\")\nout := mod.id\n"}
+	c, err := prepare(sc)
+	if err != nil {
+		return false, ""
+	}
+	cl := c.Clone()
+	c.ReplaceBuiltinModule("mod", map[string]tengo.Object{"id": &tengo.Int{Value: 99}})
+	runOne(cl, false)
+	got := lib.Canon(cl.Get("out").Object())
+	return got != "(i 7)", "clone taken BEFORE original.ReplaceBuiltinModule sees out = " + got + " (alone: (i 7))"
+}
+
+type c08probe struct {
+	id, sig, input string
+	run            func() (bool, string)
+}
+
+var c08probes = []c08probe{
+	{"O14", "clone-shares-closure-free-cells", "f (input) = closure over counter c; Run; Clone; clone.Run; Run", probeO14},
+	{"O15", "race-string-constant-runeStr", "s := \"héllo wörld\"; c := s[1] in two clones", probeO15},
+	{"O16", "race-sourcefileset-lastfile", "run-time error inside a source module called from (main)", probeO16},
+	{"C08-K1", "replace-builtin-module-on-cloned-original", "cl := c.Clone(); c.ReplaceBuiltinModule(\"mod\", {id: 99}); cl.Run()", probeK1},
+}
+
+func runC08Probes() {
+	status := map[string]string{}
+	for _, k := range lib.LoadKnown(flags.Known) {
+		if k.Property == "C08" {
+			status[k.ID] = k.Status
+		}
+	}
+	for _, p := range c08probes {
+		fails, obs := p.run()
+		res.Count("finding-probe", p.id, true)
+		if !fails {
+			continue
+		}
+		if status[p.id] == "known" || flags.Known == "" {
+			addKnown(p.id)
+			continue
+		}
+		violate(lib.Violation{Signature: p.sig, Stream: "finding-probe", Input: p.input, Observed: obs,
+			Expected: "property holds on this input", Oracle: "dedicated probe of finding " + p.id})
+	}
+}
+
+// race scenarios of the known regions (child only): their reports must classify as known
+func raceRegionTrials(r *lib.RNG) {
+	regs := []Scenario{
+		{Name: "region-O15", IDVar: "id", Src: "s := \"héllo wörld\"\nc := s[id % 5]\nn := 0\nfor ch in s { n += 1 }\n"},
+		{Name: "region-O16", IDVar: "id", SrcMods: map[string]string{"m": "export {f: func(a) { return a + \"s\" }}\n"},
+			Src: "m := import(\"m\")\nx := m.f(id)\n"},
+	}
+	for _, sc := range regs {
+		so := solo(sc, 4)
+		so.touches = false // do NOT pre-warm: this is the region itself
+		t := mkTrial(sc, 4, r, "clones", false)
+		t.Procs = 4
+		cloneTrial(t, so)
+		res.Count("race-region", sc.Name, true)
+	}
+}
+
+// ---- model correspondence: shape of a clone ----
+
+type hostObj struct{ tengo.ObjectImpl }
+
+func (h *hostObj) TypeName() string   { return "host" }
+func (h *hostObj) String() string     { return "host" }
+func (h *hostObj) Copy() tengo.Object { return h } // the model's worst case
+
+func genValue(r *lib.RNG, depth int) tengo.Object {
+	w := []int{5, 2, 2, 3, 3, 2, 2, 2, 2, 2, 1, 1}
+	if depth <= 0 {
+		w = []int{5, 2, 2, 0, 0, 0, 0, 0, 1, 1, 1, 1}
+	}
+	kids := func() []tengo.Object {
+		var xs []tengo.Object
+		for i, n := 0, r.Intn(4); i < n; i++ {
+			xs = append(xs, genValue(r, depth-1))
+		}
+		return xs
+	}
+	kmap := func() map[string]tengo.Object {
+		m := map[string]tengo.Object{}
+		for i, x := range kids() {
+			m["k"+strconv.Itoa(i)] = x
+		}
+		return m
+	}
+	switch r.Weighted(w) {
+	case 0:
+		return lib.Pick(r, []tengo.Object{&tengo.Int{Value: 3}, &tengo.Float{Value: 1.5}, &tengo.Char{Value: 'x'}, &tengo.String{Value: "str"},
+			&tengo.Bytes{Value: []byte("by")}, &tengo.Time{}, tengo.GetAllBuiltinFunctions()[0]})
+	case 1:
+		return lib.Pick(r, []tengo.Object{tengo.TrueValue, tengo.FalseValue, tengo.UndefinedValue})
+	case 2:
+		return &tengo.UserFunction{Name: "u", Value: func(...tengo.Object) (tengo.Object, error) { return tengo.UndefinedValue, nil }}
+	case 3:
+		return &tengo.Array{Value: kids()}
+	case 4:
+		return &tengo.Map{Value: kmap()}
+	case 5:
+		return &tengo.ImmutableArray{Value: kids()}
+	case 6:
+		return &tengo.ImmutableMap{Value: kmap()}
+	case 7:
+		return &tengo.Error{Value: genValue(r, depth-1)}
+	case 8:
+		f := &tengo.CompiledFunction{Instructions: []byte{0}}
+		for i, n := 0, r.Intn(3); i < n; i++ {
+			o := genValue(r, depth-1)
+			f.Free = append(f.Free, &tengo.ObjectPtr{Value: &o})
+		}
+		return f
+	case 9:
+		return &tengo.CompiledFunction{Instructions: []byte{0}}
+	case 10:
+		o := genValue(r, depth-1)
+		return &tengo.ObjectPtr{Value: &o}
+	}
+	return &hostObj{}
+}
+
+func sortedKeys(m map[string]tengo.Object) []string {
+	ks := make([]string, 0, len(m))
+	for k := range m {
+		ks = append(ks, k)
+	}
+	sort.Strings(ks)
+	return ks
+}
+
+func valSexp(o tengo.Object) string {
+	list := func(xs []tengo.Object) string {
+		var sb strings.Builder
+		for _, x := range xs {
+			sb.WriteString(" " + valSexp(x))
+		}
+		return sb.String()
+	}
+	mlist := func(m map[string]tengo.Object) string {
+		var sb strings.Builder
+		for _, k := range sortedKeys(m) {
+			sb.WriteString(" " + valSexp(m[k]))
+		}
+		return sb.String()
+	}
+	switch v := o.(type) {
+	case *tengo.Bool, *tengo.Undefined:
+		return "(s)"
+	case *tengo.UserFunction:
+		return "(h)"
+	case *tengo.Array:
+		return "(b arr" + list(v.Value) + ")"
+	case *tengo.ImmutableArray:
+		return "(b iarr" + list(v.Value) + ")"
+	case *tengo.Map:
+		return "(b map" + mlist(v.Value) + ")"
+	case *tengo.ImmutableMap:
+		return "(b imap" + mlist(v.Value) + ")"
+	case *tengo.Error:
+		return "(b err " + valSexp(v.Value) + ")"
+	case *tengo.CompiledFunction:
+		var sb strings.Builder
+		for _, p := range v.Free {
+			sb.WriteString(" " + valSexp(p))
+		}
+		return "(c" + sb.String() + ")"
+	case *tengo.ObjectPtr:
+		return "(p " + valSexp(*v.Value) + ")"
+	case *hostObj:
+		return "(o)"
+	}
+	return "(a)"
+}
+
+// realShape: preorder flags comparing the original o with its copy c.
+func realShape(o, c tengo.Object, out *[]string) {
+	if o == c {
+		sharedShape(o, out)
+		return
+	}
+	pairs := func(a, b []tengo.Object) {
+		for i := range a {
+			if i < len(b) {
+				realShape(a[i], b[i], out)
+			} else {
+				*out = append(*out, "missing")
+			}
+		}
+	}
+	mpairs := func(a, b map[string]tengo.Object) {
+		for _, k := range sortedKeys(a) {
+			if x, ok := b[k]; ok {
+				realShape(a[k], x, out)
+			} else {
+				*out = append(*out, "missing")
+			}
+		}
+	}
+	elems := func(x tengo.Object) ([]tengo.Object, map[string]tengo.Object) {
+		switch v := x.(type) {
+		case *tengo.Array:
+			return v.Value, nil
+		case *tengo.ImmutableArray:
+			return v.Value, nil
+		case *tengo.Map:
+			return nil, v.Value
+		case *tengo.ImmutableMap:
+			return nil, v.Value
+		}
+		return nil, nil
+	}
+	switch cv := c.(type) {
+	case *tengo.Array:
+		*out = append(*out, "Fa")
+		a, _ := elems(o)
+		pairs(a, cv.Value)
+	case *tengo.Map:
+		*out = append(*out, "Fm")
+		_, m := elems(o)
+		mpairs(m, cv.Value)
+	case *tengo.Error:
+		*out = append(*out, "Fe")
+		if ov, ok := o.(*tengo.Error); ok {
+			realShape(ov.Value, cv.Value, out)
+		}
+	case *tengo.CompiledFunction:
+		*out = append(*out, "Fc")
+		if ov, ok := o.(*tengo.CompiledFunction); ok {
+			for i, p := range ov.Free {
+				if i < len(cv.Free) {
+					realShape(p, cv.Free[i], out)
+				}
+			}
+		}
+	case *tengo.ObjectPtr:
+		*out = append(*out, "F")
+		if ov, ok := o.(*tengo.ObjectPtr); ok {
+			realShape(*ov.Value, *cv.Value, out)
+		}
+	default:
+		if c == nil {
+			*out = append(*out, "nil")
+			return
+		}
+		*out = append(*out, "F")
+	}
+}
+
+func sharedShape(o tengo.Object, out *[]string) {
+	*out = append(*out, "S")
+	switch v := o.(type) {
+	case *tengo.Array:
+		for _, x := range v.Value {
+			sharedShape(x, out)
+		}
+	case *tengo.ImmutableArray:
+		for _, x := range v.Value {
+			sharedShape(x, out)
+		}
+	case *tengo.Map:
+		for _, k := range sortedKeys(v.Value) {
+			sharedShape(v.Value[k], out)
+		}
+	case *tengo.ImmutableMap:
+		for _, k := range sortedKeys(v.Value) {
+			sharedShape(v.Value[k], out)
+		}
+	case *tengo.Error:
+		sharedShape(v.Value, out)
+	case *tengo.CompiledFunction:
+		for _, p := range v.Free {
+			sharedShape(p, out)
+		}
+	case *tengo.ObjectPtr:
+		sharedShape(*v.Value, out)
+	}
+}
+
+func shapeStream(drv *lib.Driver, r *lib.RNG, n int) {
+	if drv == nil {
+		return
+	}
+	for i := 0; i < n; i++ {
+		val := genValue(r.Fork(), 1+r.Intn(4))
+		s := tengo.NewScript([]byte("x := 1\n"))
+		if err := s.Add("g", val); err != nil {
+			continue
+		}
+		c, err := s.Compile()
+		if err != nil {
+			continue
+		}
+		cl := c.Clone()
+		var flagsReal []string
+		realShape(c.Get("g").Object(), cl.Get("g").Object(), &flagsReal)
+		line := "(cloneshape " + valSexp(val) + ")"
+		ans, err := drv.Ask(line)
+		if err != nil {
+			res.Disagree(lib.Disagreement{Stream: "shape", Input: line, Model: "driver error: " + err.Error(), Impl: strings.Join(flagsReal, " ")})
+			return
+		}
+		res.ModelLines++
+		impl := "ok " + strings.Join(flagsReal, " ")
+		res.Count("shape", line, len(flagsReal) > 1)
+		if ans != impl {
+			res.Disagree(lib.Disagreement{Stream: "shape", Input: line, Model: ans, Impl: impl})
+		}
+	}
+}
+
+// ---- the -race child ----
+
+func harnessRoot() string {
+	if r := os.Getenv("VERIF_ROOT"); r != "" {
+		return r
+	}
+	wd, _ := os.Getwd()
+	for d := wd; d != "/" && d != "."; d = filepath.Dir(d) {
+		if _, err := os.Stat(filepath.Join(d, "harness", "go.mod")); err == nil {
+			return d
+		}
+	}
+	return "/verif"
+}
+
+// buildRace builds this command with -race; returns the binary path and a cleanup.
+func buildRace(work string) (string, error) {
+	root := harnessRoot()
+	harn := filepath.Join(root, "harness")
+	repo := os.Getenv("VERIF_REPO")
+	args := []string{"build", "-race", "-tags", "verif"}
+	out := filepath.Join(harn, "bin", "c08-race")
+	if repo != "" && repo != "/repo" { // a mutant worktree: private modfile and binary
+		mod, err := os.ReadFile(filepath.Join(harn, "go.mod"))
+		if err != nil {
+			return "", err
+		}
+		mf := filepath.Join(work, "go.mod")
+		if err := os.WriteFile(mf, []byte(strings.Replace(string(mod), "=> /repo", "=> "+repo, 1)), 0o644); err != nil {
+			return "", err
+		}
+		if sum, err := os.ReadFile(filepath.Join(harn, "go.sum")); err == nil {
+			_ = os.WriteFile(filepath.Join(work, "go.sum"), sum, 0o644)
+		}
+		args = append(args, "-modfile="+mf)
+		out = filepath.Join(work, "c08-race")
+	}
+	tmp := out + ".tmp" + strconv.Itoa(os.Getpid())
+	args = append(args, "-o", tmp, "./cmd/c08")
+	cmd := exec.Command("go", args...)
+	cmd.Dir = harn
+	cmd.Env = append(os.Environ(), "CGO_ENABLED=1", "GOFLAGS=-mod=mod", "GOPROXY=off", "GOSUMDB=off", "GOTOOLCHAIN=local")
+	if b, err := cmd.CombinedOutput(); err != nil {
+		os.Remove(tmp)
+		return "", fmt.Errorf("go build -race: %v: %s", err, lastLines(string(b), 6))
+	}
+	if err := os.Rename(tmp, out); err != nil {
+		return "", err
+	}
+	return out, nil
+}
+
+func lastLines(s string, n int) string {
+	ls := strings.Split(strings.TrimSpace(s), "\n")
+	if len(ls) > n {
+		ls = ls[len(ls)-n:]
+	}
+	return strings.Join(ls, " / ")
+}
+
+func runRaceChild(replay string) {
+	work := filepath.Join(harnessRoot(), ".work", "c08-"+strconv.Itoa(os.Getpid()))
+	if err := os.MkdirAll(work, 0o755); err != nil {
+		res.Extra["race_build"] = "no work dir: " + err.Error()
+		return
+	}
+	defer os.RemoveAll(work)
+	t0 := time.Now()
+	bin, err := buildRace(work)
+	if err != nil {
+		// no race detector in this environment: the functional streams stand alone; say so
+		res.Extra["race_build"] = "unavailable: " + err.Error()
+		res.Dist("race-build-unavailable")
+		return
+	}
+	res.Extra["race_build_s"] = time.Since(t0).Seconds()
+	outp := filepath.Join(work, "child.json")
+	args := []string{"-c08child", "-tier", flags.Tier, "-seed", strconv.FormatUint(flags.Seed, 10), "-out", outp, "-known", flags.Known}
+	if replay != "" {
+		args = append(args, "-replay", replay)
+	}
+	cmd := exec.Command(bin, args...)
+	cmd.Env = append(os.Environ(), "GORACE=halt_on_error=0 exitcode=0 history_size=3 log_path="+filepath.Join(work, "race"))
+	cmd.Stderr = os.Stderr
+	cmd.Stdout = os.Stderr
+	err = cmd.Run()
+	b, rerr := os.ReadFile(outp)
+	var child lib.Result
+	if rerr != nil || json.Unmarshal(b, &child) != nil {
+		res.Disagree(lib.Disagreement{Stream: "race-child", Input: strings.Join(args, " "), Model: "the -race child finishes and writes its result",
+			Impl: fmt.Sprintf("exit: %v; no readable result", err)})
+		return
+	}
+	for _, v := range child.Violations {
+		res.Violate(v)
+	}
+	for _, d := range child.Disagreements {
+		res.Disagree(d)
+	}
+	for _, id := range child.KnownHits {
+		addKnown(id)
+	}
+	for k, n := range child.Streams {
+		res.Streams["race:"+k] += n
+	}
+	for k, n := range child.Distribution {
+		res.Distribution["race:"+k] += n
+	}
+	res.Evaluations += child.Evaluations
+	res.Distinct += child.Distinct
+	res.Skipped += child.Skipped
+	res.Extra["race_child_wall_s"] = child.WallS
+}
+
+// ---- main ----
+
+func replayFile(path string, r *lib.RNG) {
+	b, err := os.ReadFile(path)
+	if err != nil {
+		fmt.Fprintln(os.Stderr, "c08:", err)
+		os.Exit(3)
+	}
+	var rp struct {
+		Violations []struct {
+			Input json.RawMessage `json:"input"`
+		} `json:"violations"`
+	}
+	_ = json.Unmarshal(b, &rp)
+	for _, v := range rp.Violations {
+		var t Trial
+		if json.Unmarshal(v.Input, &t) != nil || t.Scenario.Src == "" {
+			continue
+		}
+		if t.Race && !raceEnabled {
+			continue // re-run by the child
+		}
+		if t.Mode == "api" {
+			apiTrial(t, r)
+		} else {
+			so := solo(t.Scenario, t.K)
+			if so.err == nil && !so.unstable {
+				for i := 0; i < 5; i++ {
+					cloneTrial(t, so)
+				}
+			}
+		}
+		res.Count("replay", string(v.Input), true)
+	}
+}
 
 func main() {
-	// O14
-	s := tengo.NewScript([]byte("if is_undefined(f) { f = func() { c := 0; return func() { c += 1; return c } }() }\nout := f()\n"))
-	_ = s.Add("f", nil)
-	c, err := s.Compile()
-	if err != nil {
-		panic(err)
+	flag.BoolVar(&isChild, "c08child", false, "internal: this is the -race child")
+	flag.BoolVar(&noRace, "c08norace", false, "do not build/run the -race child")
+	flags = lib.ParseFlags()
+	res = lib.NewResult("C08", flags)
+	res.Extra = map[string]interface{}{}
+	res.Rule = "programs: type-directed generator (closures, containers, strings, run-time errors) plus targeted ones (mutated array/map inputs, closures in globals, source/builtin modules, ReplaceBuiltinModule per clone, run-time failures, strings built at run time); " +
+		"a clones case is non-trivial when the program defines at least one global; distinct by (source, K)"
+	if raceEnabled {
+		if lp := os.Getenv("GORACE"); strings.Contains(lp, "log_path=") {
+			p := lp[strings.Index(lp, "log_path=")+len("log_path="):]
+			if i := strings.IndexByte(p, ' '); i >= 0 {
+				p = p[:i]
+			}
+			rlog = &raceLog{path: p + "." + strconv.Itoa(os.Getpid())}
+		}
 	}
-	fmt.Println(c.Run(), get(c, "out"))
-	cl := c.Clone()
-	fmt.Println(cl.Run(), get(cl, "out"))
-	fmt.Println(cl.Run(), get(cl, "out"))
-	fmt.Println(c.Run(), "orig out (solo: 2):", get(c, "out"))
+	rng := lib.NewRNG(flags.Seed) // the -race child walks a prefix of the parent's program sequence
 
-	// replace on original
-	s2 := tengo.NewScript([]byte("m := import(\"mod\")\nout := m.id\nfor i := 0; i < 2000; i++ { out = m.id }\n"))
-	mm := tengo.NewModuleMap()
-	mm.AddBuiltinModule("mod", map[string]tengo.Object{"id": &tengo.Int{Value: 7}})
-	s2.SetImports(mm)
-	c2, err := s2.Compile()
-	if err != nil {
-		panic(err)
+	if flags.Replay != "" {
+		replayFile(flags.Replay, rng)
+		if !isChild && !noRace {
+			runRaceChild(flags.Replay)
+		}
+		res.Write(flags.Out)
+		return
 	}
-	cl2 := c2.Clone()
-	var wg sync.WaitGroup
-	wg.Add(1)
-	go func() { defer wg.Done(); cl2.Run() }()
-	c2.ReplaceBuiltinModule("mod", map[string]tengo.Object{"id": &tengo.Int{Value: 99}})
-	wg.Wait()
-	fmt.Println(cl2.Run(), "clone sees (want 7):", get(cl2, "out"))
+
+	nGen, reps := flags.Scale(150, 3000), flags.Scale(6, 20)
+	if raceEnabled {
+		nGen, reps = flags.Scale(18, 150), flags.Scale(2, 3)
+	}
+	treps := reps * 2
+	if raceEnabled {
+		treps = reps
+	}
+	for _, sc := range targeted() {
+		ks := []int{2, 4, 8}
+		if raceEnabled && !flags.Thorough() {
+			ks = []int{2, 8}
+		}
+		runScenario(sc, rng.Fork(), treps, ks)
+		res.Dist("targeted:" + sc.Name)
+	}
+	for i := 0; i < nGen; i++ {
+		r := rng.Fork()
+		sc := genScenario(r, i)
+		ks := []int{2, 4, 8}
+		if raceEnabled && !flags.Thorough() {
+			ks = []int{ks[i%3]}
+		}
+		runScenario(sc, r, reps, ks)
+	}
+	if raceEnabled {
+		raceRegionTrials(rng.Fork())
+	}
+	res.Extra["t_solo_s"], res.Extra["t_clones_s"], res.Extra["t_api_s"] = tSolo.Seconds(), tClone.Seconds(), tApi.Seconds()
+	if !isChild {
+		drv, err := lib.StartDriver(flags.Driver)
+		if err != nil {
+			fmt.Fprintln(os.Stderr, "c08:", err)
+			os.Exit(3)
+		}
+		res.DriverUsed = drv != nil
+		shapeStream(drv, rng.Fork(), flags.Scale(400, 5000))
+		if drv != nil {
+			drv.Close()
+		}
+		runC08Probes()
+		lib.RunProbes(res, "C08", flags.Known)
+		if !noRace {
+			runRaceChild("")
+		}
+	}
+	res.Write(flags.Out)
 }
